@@ -114,7 +114,7 @@ def stepMain (s : LState) (c : Char) (next : Option Char) : LState :=
     else if isNameChar c then { s with mode := .hdelim [c] }
     else { s with bad := true, mode := .top }
   | .hdelim acc =>
-    -- never reached with a name character (handled in `step`)
+    -- never reached with a name character (handled in `lexStep`)
     { s with mode := .hdelim acc }
   | .hbody line =>
     if c == '\n' then
@@ -163,7 +163,7 @@ def LState.finishDelim (s : LState) (acc : List Char) : LState :=
   { s with toks := .here s.nhere :: s.toks, nhere := s.nhere + 1, pend := s.pend ++ [acc.reverse],
            mode := .top }
 
-def step (s : LState) (c : Char) (next : Option Char) : LState :=
+def lexStep (s : LState) (c : Char) (next : Option Char) : LState :=
   if s.skip then { s with skip := false } else
   match s.mode with
   | .var q acc => if isNameChar c then { s with mode := .var q (c :: acc) }
@@ -175,7 +175,7 @@ def step (s : LState) (c : Char) (next : Option Char) : LState :=
 /-- the lexer is a left fold with one character of look-ahead -/
 def lexGo (s : LState) : List Char → LState
   | [] => s
-  | c :: rest => lexGo (step s c rest.head?) rest
+  | c :: rest => lexGo (lexStep s c rest.head?) rest
 
 inductive LexEnd where
   | ok | incomplete | error
